@@ -1,6 +1,6 @@
 // C07: VyukovMPMCCycleQueue is a linearizable bounded FIFO.  CORO harness: T threads x NOPS operations each (kind chosen
-// by the solver), on a queue of capacity CAP that was pre-cycled ROT times (wrap-around of the position counters) and
-// pre-filled with PRE items, both chosen by the solver.  Oracle: lin.h against a bounded FIFO of capacity CAP.
+// by the solver), on a queue of capacity CAP that was pre-cycled ROTMAX times (wrap-around of the position counters, constant per query) and
+// pre-filled with PRE items chosen by the solver.  Oracle: lin.h against a bounded FIFO of capacity CAP.
 #include "lin.h"
 #include <cassert>
 #include <cds/container/vyukov_mpmc_cycle_queue.h>
@@ -68,7 +68,7 @@ HFN void h_setup()
     static queue_t the_queue( CAP );
     Q = &the_queue;
     VASSERT( Q->capacity() == CAP, "capacity as configured" );
-    unsigned rot = (unsigned) nondet_range( 0, ROTMAX ), pre = (unsigned) nondet_range( 0, CAP );
+    unsigned rot = ROTMAX /* constant per query: position counters stay concrete */, pre = (unsigned) nondet_range( 0, CAP );
     for ( unsigned i = 0; i < ROTMAX; ++i ) if ( i < rot ) { uint32_t v = 0; bool a = Q->enqueue( 7 ), b = Q->dequeue( v ); VASSERT( a && b && v == 7, "setup cycle" ); }
     init_state.n = 0;
     for ( unsigned i = 0; i < CAP; ++i ) if ( i < pre ) { uint32_t v = next_val++; bool a = Q->enqueue( v ); VASSERT( a, "setup fill" ); init_state.a[init_state.n++] = v; }
